@@ -36,6 +36,13 @@ impl<A, D: Dimension> ArrayN<A, D> {
             r@.len() == self.lanes(axis.0 as int).len(),
             forall|j: int| 0 <= j < r@.len() ==> lane_result(self.lanes(axis.0 as int)[j], f, #[trigger] r@[j]),
     { unimplemented!() }
+    // `mapv_inplace(f)`: every element replaced by f of itself
+    #[verifier::external_body]
+    pub fn mapv_inplace<F: FnMut(A) -> A>(&mut self, f: F)
+        where A: Copy
+        requires forall|k: int| 0 <= k < old(self)@.len() ==> #[trigger] call_requires(f, (old(self)@[k],))
+        ensures final(self)@.len() == old(self)@.len(), final(self).shape_spec() == old(self).shape_spec(), forall|k: int| 0 <= k < old(self)@.len() ==> call_ensures(f, (old(self)@[k],), #[trigger] final(self)@[k])
+    { unimplemented!() }
     #[verifier::external_body]
     pub fn mapv_into<F: FnMut(A) -> A>(self, f: F) -> (r: ArrayN<A, D>)
         requires forall|k: int| 0 <= k < self@.len() ==> #[trigger] call_requires(f, (self@[k],))
@@ -53,3 +60,29 @@ pub proof fn axiom_lane_len<A, D: Dimension>(a: &ArrayN<A, D>, axis: int)
     requires 0 <= axis < a.shape_spec().len()
     ensures forall|j: int| 0 <= j < a.lanes(axis).len() ==> (#[trigger] a.lanes(axis)[j]).len() == a.shape_spec()[axis]
 { }
+
+// a reference to an n-D array iterates over references to its elements in logical order (A-ND; used by `.zip(weights)`)
+impl<'a, A, D: Dimension> IntoSeqIter for &'a ArrayN<A, D> {
+    type Item = &'a A;
+    open spec fn seq_items(self) -> Seq<&'a A> { Seq::new(self@.len(), |k: int| &self@[k]) }
+}
+impl<'a, A: 'a, D: Dimension> VerifIter<'a> for ArrayN<A, D> {
+    type Item = &'a A;
+    open spec fn items_spec(&'a self) -> Seq<&'a A> { Seq::new(self@.len(), |k: int| &self@[k]) }
+    #[verifier::external_body]
+    fn verif_iter(&'a self) -> (r: SeqIter<&'a A>) { unimplemented!() }
+}
+// a trace whose steps add d_k * w_k is the weighted sum (exact arithmetic)
+pub proof fn lemma_trace_wsum<A: Float>(accs: Seq<A>, xs: Seq<real>, ws: Seq<real>, k: int)
+    requires 0 <= k <= xs.len(), xs.len() == ws.len(), accs.len() == xs.len() + 1, accs[0].val() == 0real,
+        forall|j: int| 0 <= j < xs.len() ==> (#[trigger] accs[j + 1]).val() == accs[j].val() + xs[j] * ws[j],
+    ensures accs[k].val() == wpsum(xs, ws, 1, k)
+    decreases k
+{
+    if k > 0 {
+        lemma_trace_wsum(accs, xs, ws, k - 1);
+        assert(accs[(k - 1) + 1].val() == accs[k - 1].val() + xs[k - 1] * ws[k - 1]);
+        lemma_rpow_small(xs[k - 1]);
+        rl_assoc(ws[k - 1], xs[k - 1], 1real);
+    }
+}
